@@ -140,6 +140,7 @@ func (a *ArrayAccess) String() string {
 // ObjectLiteral represents an object literal in the source code.
 type ObjectLiteral struct {
 	Properties map[string]Expr
+	Keys       []token.Token // property names in source order (each name once)
 }
 
 func (o *ObjectLiteral) String() string {
